@@ -62,7 +62,7 @@ Qed.
 
 Lemma fd_item_PT dd calc d kids seen :
   fd_item dd calc (PT d kids) seen =
-  match dd (dget k_data d) with
+  match dd d with
   | inr e => inr e
   | inl i0 =>
       match did_for calc (dget k_data_id d) i0 with
@@ -77,7 +77,7 @@ Lemma fd_item_PT dd calc d kids seen :
   end.
 Proof.
   cbn [fd_item].
-  destruct (dd (dget k_data d)) as [i0|e]; [|reflexivity].
+  destruct (dd d) as [i0|e]; [|reflexivity].
   destruct (did_for calc (dget k_data_id d) i0) as [dv|e]; [|reflexivity].
   destruct (existsb (did_eqb dv) seen); [reflexivity|].
   assert (E : forall l s,
@@ -256,10 +256,14 @@ Proof.
   apply in_flat_map. exists t. split; assumption.
 Qed.
 
-(* the mapper pair is inverse on payload [i]: decoding the encoded data gives
-   an indistinguishable data object *)
-Definition inverse_on (enc : info -> jv) (dd : dmapper) (i : info) : Prop :=
-  exists i', dd (Some (enc i)) = inl i' /\ same_data i i'.
+(* the mapper pair is inverse on payload [i]: from the dict to_dict writes for the
+   node ([head_dict]: "data", maybe "data_id", whatever the serialisation mapper
+   adds), with any "children" entry, the deserialisation step builds an
+   indistinguishable data object *)
+Definition own_entries (D0 D : jdict) : Prop := forall k, k <> k_children -> dget k D = dget k D0.
+
+Definition inverse_on (sm : smapper) (dd : dmapper) (i : info) : Prop :=
+  forall D, own_entries (head_dict sm i) D -> exists i', dd D = inl i' /\ same_data i i'.
 
 Lemma existsb_did_false dv seen : ~ In dv seen -> existsb (did_eqb dv) seen = false.
 Proof.
@@ -277,15 +281,19 @@ Lemma to_dict_dict_spec enc sm id i ch : sm_ok enc sm ->
   exists D, to_dict sm (T id i ch) = JDict D /\
             dget k_data D = Some (enc i) /\
             dget k_data_id D = (if has_custom_did i then Some (jv_of_did (i_did i)) else None) /\
-            kids_of D = map (to_dict sm) ch.
+            kids_of D = map (to_dict sm) ch /\
+            own_entries (head_dict sm i) D.
 Proof.
   intros Hsm. rewrite to_dict_unfold. destruct (head_dict_spec enc sm i Hsm) as (A1 & A2 & A3).
   destruct ch as [|c cs].
-  - exists (head_dict sm i). refine (conj eq_refl (conj A1 (conj A2 _))). unfold kids_of. now rewrite A3.
-  - eexists. split; [reflexivity|]. refine (conj _ (conj _ _)).
+  - exists (head_dict sm i). refine (conj eq_refl (conj A1 (conj A2 (conj _ _)))).
+    + unfold kids_of. now rewrite A3.
+    + intros k _. reflexivity.
+  - eexists. split; [reflexivity|]. refine (conj _ (conj _ (conj _ _))).
     + rewrite dget_dset_other by exact k_data_neq_ch. exact A1.
     + rewrite dget_dset_other by exact k_id_neq_ch. exact A2.
     + unfold kids_of. now rewrite dget_dset_same.
+    + intros k Hk. now apply dget_dset_other.
 Qed.
 
 Lemma iso_rdid a b : iso a b -> rdid b = rdid a.
@@ -296,12 +304,12 @@ Section RoundTrip.
   Hypothesis Hsm : sm_ok enc sm.
 
   Definition rt_goal (t : rt) : Prop :=
-    sibuniq t -> allinfo (inverse_on enc dd) t ->
+    sibuniq t -> allinfo (inverse_on sm dd) t ->
     forall seen, ~ In (rdid t) seen ->
     exists t', fd_item dd default_did (parse (to_dict sm t)) seen = inl t' /\ iso t t'.
 
   Lemma rt_loop : forall ch, Forall rt_goal ch ->
-    NoDup (map rdid ch) -> Forall sibuniq ch -> Forall (allinfo (inverse_on enc dd)) ch ->
+    NoDup (map rdid ch) -> Forall sibuniq ch -> Forall (allinfo (inverse_on sm dd)) ch ->
     forall seen, (forall x, In x (map rdid ch) -> ~ In x seen) ->
     exists ch', fd_loop dd default_did (map parse (map (to_dict sm) ch)) seen = inl ch' /\ Forall2 iso ch ch'.
   Proof.
@@ -322,9 +330,10 @@ Section RoundTrip.
   Lemma rt_item : forall t, rt_goal t.
   Proof.
     induction t as [id i ch IH] using rt_ind'. intros SU AI seen Nin.
-    inversion SU as [id0 i0 ch0 ND SUch]; subst. inversion AI as [id1 i1 ch1 (i' & Ei & SD) AIch]; subst.
-    destruct (to_dict_dict_spec enc sm id i ch Hsm) as (D & ED & D1 & D2 & D3).
-    rewrite ED, parse_dict, fd_item_PT, D1, Ei, D2, D3.
+    inversion SU as [id0 i0 ch0 ND SUch]; subst. inversion AI as [id1 i1 ch1 Hinv AIch]; subst.
+    destruct (to_dict_dict_spec enc sm id i ch Hsm) as (D & ED & D1 & D2 & D3 & D4).
+    destruct (Hinv D D4) as (i' & Ei & SD).
+    rewrite ED, parse_dict, fd_item_PT, Ei, D2, D3.
     assert (Edid : (if has_custom_did i then did_for default_did (Some (jv_of_did (i_did i))) i'
                     else did_for default_did None i') = inl (i_did i)).
     { destruct (has_custom_did i) eqn:C.
@@ -341,7 +350,7 @@ Section RoundTrip.
   Qed.
 
   (* from_dict before node identities are assigned *)
-  Theorem roundtrip_raw f : sibuniq_f f -> Forall (allinfo (inverse_on enc dd)) f ->
+  Theorem roundtrip_raw f : sibuniq_f f -> Forall (allinfo (inverse_on sm dd)) f ->
     exists f', fd_loop dd default_did (map parse (to_dict_list sm f)) [] = inl f' /\ Forall2 iso f f'.
   Proof.
     intros [ND SU] AI. unfold to_dict_list. apply rt_loop; try assumption.
@@ -545,7 +554,7 @@ Qed.
 (* ------------------------------------------------------------------ *)
 (* The round trip, with identities *)
 Theorem roundtrip enc sm dd next f :
-  sm_ok enc sm -> sibuniq_f f -> Forall (allinfo (inverse_on enc dd)) f ->
+  sm_ok enc sm -> sibuniq_f f -> Forall (allinfo (inverse_on sm dd)) f ->
   exists f', tree_from_dict dd next (to_dict_list sm f) = inl f' /\
              Forall2 iso f f' /\ ids f' = seq (S next) (size_f f).
 Proof.
@@ -590,7 +599,7 @@ Section Safe.
     induction p as [|d kids IH] using pt_ind'; intros seen t E.
     - discriminate.
     - rewrite fd_item_PT in E.
-      destruct (dd (dget k_data d)) as [i0|e]; [|discriminate].
+      destruct (dd d) as [i0|e]; [|discriminate].
       destruct (did_for calc (dget k_data_id d) i0) as [dv|e]; [|discriminate].
       destruct (existsb (did_eqb dv) seen) eqn:Ex; [discriminate|].
       destruct (fd_loop dd calc kids []) as [ch|e] eqn:El; [|discriminate].
@@ -620,7 +629,7 @@ Lemma dicts_pre_t enc sm : sm_ok enc sm -> forall t,
   map head_of (pt_dicts (parse (to_dict sm t))) = map (fun x => (Some (enc (rinfo x)), opt_id (rinfo x))) (pre t).
 Proof.
   intros Hsm. induction t as [id i ch IH] using rt_ind'.
-  destruct (to_dict_dict_spec enc sm id i ch Hsm) as (D & ED & D1 & D2 & D3).
+  destruct (to_dict_dict_spec enc sm id i ch Hsm) as (D & ED & D1 & D2 & D3 & _).
   rewrite ED, parse_dict. cbn [pt_dicts pre map]. f_equal.
   - unfold head_of. rewrite D1, D2, opt_id_custom. reflexivity.
   - rewrite D3. clear -IH. induction IH as [|x xs Hx _ IHxs]; [reflexivity|].
@@ -642,7 +651,9 @@ Theorem roundtrip_strings raw next f :
              Forall2 iso f f' /\ ids f' = seq (S next) (size_f f).
 Proof.
   intros SU H. apply (roundtrip enc_name); [exact sm_none_ok|exact SU|].
-  apply allinfo_f_of_pre. intros x Hx. exact (H x Hx).
+  apply allinfo_f_of_pre. intros x Hx D Hown. unfold dd_raw.
+  rewrite (Hown k_data k_data_neq_ch).
+  destruct (head_dict_spec enc_name sm_none (rinfo x) sm_none_ok) as (A1 & _). rewrite A1. exact (H x Hx).
 Qed.
 
 Theorem iso_consequences f f' : Forall2 iso f f' ->
@@ -669,7 +680,7 @@ Section Refusal.
 
   Definition eff (p : pt) : option did :=
     match p with
-    | PT d _ => match dd (dget k_data d) with
+    | PT d _ => match dd d with
                 | inl i => match did_for calc (dget k_data_id d) i with inl dv => Some dv | inr _ => None end
                 | inr _ => None
                 end
@@ -683,9 +694,9 @@ Section Refusal.
   | uniq_PT : forall d kids, NoDup (map eff kids) -> Forall uniq_pt kids -> uniq_pt (PT d kids).
 
   Lemma eff_inv d kids dv : eff (PT d kids) = Some dv ->
-    exists i, dd (dget k_data d) = inl i /\ did_for calc (dget k_data_id d) i = inl dv.
+    exists i, dd d = inl i /\ did_for calc (dget k_data_id d) i = inl dv.
   Proof.
-    cbn [eff]. destruct (dd (dget k_data d)) as [i|e]; [|discriminate].
+    cbn [eff]. destruct (dd d) as [i|e]; [|discriminate].
     destruct (did_for calc (dget k_data_id d) i) as [x|e] eqn:E; [|discriminate].
     intros H. injection H as <-. exists i. split; [reflexivity|exact E].
   Qed.
@@ -774,7 +785,7 @@ Section Refusal.
     induction p as [|d kids IH] using pt_ind'; intros seen t E.
     - discriminate.
     - rewrite fd_item_PT in E. cbn [eff].
-      destruct (dd (dget k_data d)) as [i0|e]; [|discriminate].
+      destruct (dd d) as [i0|e]; [|discriminate].
       destruct (did_for calc (dget k_data_id d) i0) as [dv|e]; [|discriminate].
       destruct (existsb (did_eqb dv) seen); [discriminate|].
       destruct (fd_loop dd calc kids []) as [ch|e] eqn:El; [|discriminate].
@@ -851,7 +862,7 @@ Section Built.
 
   Inductive built : pt -> rt -> Prop :=
   | built_node : forall d kids i dv id ch,
-      dd (dget k_data d) = inl i -> did_for calc (dget k_data_id d) i = inl dv ->
+      dd d = inl i -> did_for calc (dget k_data_id d) i = inl dv ->
       Forall2 built kids ch -> built (PT d kids) (T id (mk_info i dv) ch).
 
   Definition built_goal (p : pt) : Prop := forall seen t, fd_item dd calc p seen = inl t -> built p t.
@@ -872,7 +883,7 @@ Section Built.
     induction p as [|d kids IH] using pt_ind'; intros seen t E.
     - discriminate.
     - rewrite fd_item_PT in E.
-      destruct (dd (dget k_data d)) as [i0|e] eqn:E1; [|discriminate].
+      destruct (dd d) as [i0|e] eqn:E1; [|discriminate].
       destruct (did_for calc (dget k_data_id d) i0) as [dv|e] eqn:E2; [|discriminate].
       destruct (existsb (did_eqb dv) seen); [discriminate|].
       destruct (fd_loop dd calc kids []) as [ch|e] eqn:El; [|discriminate].
@@ -909,12 +920,13 @@ End Built.
    writes: "data" a string the deserialisation step reads back under that name,
    "data_id" only when it is not the default, "children" only when non-empty)
    is reproduced by to_dict_list(from_dict(obj)). *)
+(* ([dd] reads the item dict; for the plain reading of a string, [dd_raw raw].) *)
 Section Canonical.
   Variable dd : dmapper.
 
   Inductive canon : jv -> Prop :=
   | canon_item : forall s i idpart chpart,
-      dd (Some (JStr s)) = inl i -> i_name i = s -> i_hash i <> (-1)%Z ->
+      dd ([(k_data, JStr s)] ++ idpart ++ chpart) = inl i -> i_name i = s -> i_hash i <> (-1)%Z ->
       (idpart = [] \/ exists dv, idpart = [(k_data_id, jv_of_did dv)] /\ dv <> DInt (i_hash i)) ->
       (chpart = [] \/ exists c cs, chpart = [(k_children, JList (c :: cs))] /\ Forall canon (c :: cs)) ->
       canon (JDict ([(k_data, JStr s)] ++ idpart ++ chpart)).
@@ -926,8 +938,7 @@ Section Canonical.
     rewrite parse_dict in B.
     inversion B as [d0 k0 i1 dv id1 ch1 E1 E2 F]; subst.
     change ([(k_data, JStr (i_name i0))] ++ idpart ++ chpart) with ((k_data, JStr (i_name i0)) :: idpart ++ chpart) in *.
-    assert (Gd : dget k_data ((k_data, JStr (i_name i0)) :: idpart ++ chpart) = Some (JStr (i_name i0))) by reflexivity.
-    rewrite Gd, Ed in E1. injection E1 as <-.
+    rewrite Ed in E1. injection E1 as <-.
     rewrite to_dict_plain_exact. cbn [i_name i_did i_hash mk_info]. apply f_equal.
     change ([(k_data, JStr (i_name i0))] ++ ?x) with ((k_data, JStr (i_name i0)) :: x). apply f_equal.
     assert (Kids : kids_of ((k_data, JStr (i_name i0)) :: idpart ++ chpart) =
